@@ -241,6 +241,28 @@ def await_pred(aw):
     return lambda x: isinstance(x, tuple) and len(x) == 4 and x[0] == "await" and x[3] == aw.call_bb
 
 
+def ok_sites(program, body, terms=None):
+    """blocks of the return sites that may return success: every site except those whose value is syntactically an
+    Err/None (an aggregate, a `?` residual).  `let r = Ok(x); r` counts (the site kind is "use", the value is Ok)."""
+    T = terms or Terms(program, body)
+    out = []
+    for s in outcome_sites(body):
+        if s["path"] != ():
+            continue
+        if s["kind"] in ("Err", "residual", "None"):
+            continue
+        if s["kind"] in ("Ok", "Some"):
+            out.append(s["bb"])
+            continue
+        v = simplify_term(T._rvalue(s["rv"], s["bb"], s["idx"], 0) if s.get("idx") is not None else T._call(s["term"], s["bb"], 0))
+        if v == ("never",):
+            continue
+        if isinstance(v, tuple) and len(v) == 4 and v[0] == "agg" and v[2] in ("Err", "None"):
+            continue
+        out.append(s["bb"])
+    return out
+
+
 def failure_is_error(program, body, pred, terms=None, norm=None):
     """Error discipline for a fallible value: it is tested somewhere (`?`, match, if let, is_err ...), and from every
     edge on which it was *not* found Ok/Some no Ok return of `body` is reachable.  A result that is dropped (`.ok()`,
@@ -270,7 +292,7 @@ def failure_is_error(program, body, pred, terms=None, norm=None):
             if fwd:
                 return True, "forwarded to the caller: the returned value is Err/None exactly when it failed", ok, bad
         return False, "the value is never tested: its error is dropped", ok, bad
-    oks = [s["bb"] for s in outcome_sites(body) if s["kind"] == "Ok" and s["path"] == ()]
+    oks = ok_sites(program, body, terms)
     for sb, sc in bad:
         # (a later test that finds the value — or what was selected from it — Ok is not on a failure path)
         r = body.reachable(sc, removed_edges=ok, follow_yield_drop=False)
